@@ -16,6 +16,8 @@ def extra(cases, verdicts):
             "objective_mix": {"cost": sum(1 for c in cases if c["obj"] == "cost"), "distance": sum(1 for c in cases if c["obj"] == "distance")}}
 
 
+CLAIMED = True
+
 PROP = dict(
     proof_modules=["VrpProofs.C20"], model_modules=["VrpModel.Route", "VrpModel.C06", "VrpModel.C20"],
     drv="drv_c20", bin="c20", nontrivial=nontrivial, extra_evidence=extra,
